@@ -356,7 +356,7 @@ class Call:
     def eval_new_data_offset(self, data_mask):
         if self._intermediate_data.kind == "constant":
             # Return value passed as the argument
-            result = np.ones(len(data_mask.index)) * self.call.args[0].value
+            result = np.ones(len(data_mask.index)) * self.call.args[0].eval(data_mask, self.env)
         else:
             # This works both for LazyVariable (offset(x)) and LazyCall (offset(np.log(x)))
             offset = self.call.eval(data_mask, self.env)  # returns instance of Offset
@@ -369,7 +369,7 @@ class Call:
     def eval_new_data_proportion(self, data_mask):
         if self._intermediate_data.trials_type == "constant":
             # Return value passed in the second component
-            result = np.ones(len(data_mask.index)) * self.call.args[1].value
+            result = np.ones(len(data_mask.index)) * self.call.args[1].eval(data_mask, self.env)
         else:
             # Extract name of the second component
             name = self.call.args[1].name
